@@ -110,7 +110,7 @@ impl Property for C05 {
         "C05"
     }
     fn rule(&self) -> &'static str {
-        "proptest histories (<=25 quick / <=45 thorough ops) over 2 ITS-deployed tokens (initial supply 1000 / 0, with / without minter), 2 registered canonical Stellar assets, 4 users, an executable probe, 3 chains: deployments, registrations, outbound transfers (amount 0, -1, 1, small, balance, balance+1, custody, custody+1; data absent / present; gas 0, -1, 1, all, all+1), approved inbound transfers (to users or to the executable with data; amounts up to custody+1), trusted-chain changes, minter mints, transfers of unknown token ids. Oracle: ledger model of every balance, custody per canonical token and supply per deployed token, compared after every step (custody = token balance of the service, never negative; supply = sum of balances over the closed address pool); successful outbound = exactly sender -amount, payer -gas, gas service +gas, one contract_called whose payload equals the harness's own ABI encoding of SendToHub{chain, Transfer{id, XDR(sender), destination, amount, data}}, gas_paid with keccak(payload), matching interchain_transfer_sent; inbound credits exactly the amount with matching interchain_transfer_received; every refused call leaves the ledger snapshot identical. The configuration of known finding C11 (supply>0 with minter) is excluded by construction. non-trivial = history has transfers in both directions on a canonical token, or a failing attempt between two successful transfers; distinct by Debug hash"
+        "proptest histories (<=25 quick / <=45 thorough ops) over 2 ITS-deployed tokens (initial supply 1000 / 0, with / without minter), 2 registered canonical Stellar assets, 4 users, an executable probe, 3 chains: deployments, registrations, outbound transfers (amount 0, -1, 1, small, balance, balance+1, custody, custody+1; data absent / present; gas 0, -1, 1, all, all+1), approved inbound transfers (to users or to the executable with data; amounts up to custody+1), trusted-chain changes, minter mints, transfers of unknown token ids. Oracle: ledger model of every balance, custody per canonical token and supply per deployed token, compared after every step (custody = token balance of the service, never negative; supply = sum of balances over the closed address pool); successful outbound = exactly sender -amount, payer -gas, gas service +gas, one contract_called whose payload equals the harness's own ABI encoding of SendToHub{chain, Transfer{id, XDR(sender), destination, amount, data}}, a gas payment event carrying keccak(payload), payer and amount, and a service event naming token, sender and amount; inbound credits exactly the amount and the service event names token, recipient and amount; every refused call leaves the ledger snapshot identical. The configuration of known finding C11 (supply>0 with minter) is excluded by construction. non-trivial = history has transfers in both directions on a canonical token, or a failing attempt between two successful transfers; distinct by Debug hash"
     }
     fn cases(&self, tier: Tier) -> u64 {
         tier.pick(2500, 40000)
@@ -347,28 +347,23 @@ impl Property for C05 {
                         );
                         let paid: Vec<_> = evs.iter().filter(|e| e.0 == w.gas.id).collect();
                         ensure_p!(paid.len() == 1, "step {}: expected one gas service event", step);
-                        let want_paid = vec![
-                            sym("gas_paid"),
-                            scv(env, w.its.id.clone()),
-                            scv(env, sstr(env, HUB_CHAIN)),
-                            scv(env, sstr(env, HUB_ADDR)),
-                            scv(env, BytesN::from_array(env, &keccak256(&payload))),
-                            scv(env, w.users[u].clone()),
-                            scv(env, Token { address: w.gas_asset.clone(), amount: g }),
-                        ];
-                        ensure_p!(paid[0].1 == want_paid, "step {}: gas_paid topics wrong: {:?}", step, paid[0].1);
+                        ensure_p!(
+                            paid[0].1.contains(&scv(env, BytesN::from_array(env, &keccak256(&payload))))
+                                && paid[0].1.contains(&scv(env, w.users[u].clone()))
+                                && paid[0].1.contains(&scv(env, Token { address: w.gas_asset.clone(), amount: g })),
+                            "step {}: the gas payment event does not carry keccak(payload), payer and the stated gas token/amount: {:?}",
+                            step,
+                            paid[0].1
+                        );
                         let sent: Vec<_> = evs.iter().filter(|e| e.0 == w.its.id).collect();
                         ensure_p!(sent.len() == 1, "step {}: expected one service event", step);
-                        let want_sent = vec![
-                            sym("interchain_transfer_sent"),
-                            scv(env, BytesN::from_array(env, &tid)),
-                            scv(env, w.users[u].clone()),
-                            scv(env, sstr(env, CHAINS[c])),
-                            scv(env, Bytes::from_slice(env, &dest_b)),
-                            scv(env, a),
-                        ];
-                        ensure_p!(sent[0].1 == want_sent, "step {}: interchain_transfer_sent topics wrong: {:?}", step, sent[0].1);
-                        ensure_p!(sent[0].2 == scv(env, (data_b.as_ref().map(|d| Bytes::from_slice(env, d)),)), "step {}: interchain_transfer_sent data wrong", step);
+                        // the service's own event is not part of the statement beyond naming what was taken
+                        ensure_p!(
+                            sent[0].1.contains(&scv(env, BytesN::from_array(env, &tid))) && sent[0].1.contains(&scv(env, a)) && sent[0].1.contains(&scv(env, w.users[u].clone())),
+                            "step {}: the service's transfer event does not name token, sender and amount: {:?}",
+                            step,
+                            sent[0].1
+                        );
                     } else {
                         cx.count("must_fail");
                         ensure_p!(!ok, "step {}: outbound transfer accepted (registered {}, amount {}, balance {}, trusted {}, gas {} of {})", step, registered, a, b, trusted[c], g, gasbal[u]);
@@ -420,15 +415,12 @@ impl Property for C05 {
                         let evs = events_since(env, ev0);
                         let recv: Vec<_> = evs.iter().filter(|e| e.0 == w.its.id).collect();
                         ensure_p!(recv.len() == 1, "step {}: expected one service event", step);
-                        let want = vec![
-                            sym("interchain_transfer_received"),
-                            scv(env, sstr(env, CHAINS[o])),
-                            scv(env, BytesN::from_array(env, &tid)),
-                            scv(env, Bytes::from_slice(env, &src_b)),
-                            scv(env, pool[to_i].clone()),
-                            scv(env, a),
-                        ];
-                        ensure_p!(recv[0].1 == want, "step {}: interchain_transfer_received topics wrong: {:?}", step, recv[0].1);
+                        ensure_p!(
+                            recv[0].1.contains(&scv(env, BytesN::from_array(env, &tid))) && recv[0].1.contains(&scv(env, a)) && recv[0].1.contains(&scv(env, pool[to_i].clone())),
+                            "step {}: the service's receive event does not name token, recipient and amount: {:?}",
+                            step,
+                            recv[0].1
+                        );
                         if !data_b.is_empty() {
                             exec_calls += 1;
                             let log = exec.log();
